@@ -75,6 +75,21 @@ func (u *vkUpstream) Exchange(req *dns.Msg) (resp *dns.Msg, err error) {
 	return resp, nil
 }
 
+// SetScript replaces the answer script (safe while requests are served).
+func (u *vkUpstream) SetScript(f func(req *dns.Msg, n int) (ans []dns.RR, rcode int)) {
+	u.mu.Lock()
+	u.Script = f
+	u.mu.Unlock()
+}
+
+// GetScript returns the current answer script.
+func (u *vkUpstream) GetScript() (f func(req *dns.Msg, n int) (ans []dns.RR, rcode int)) {
+	u.mu.Lock()
+	defer u.mu.Unlock()
+
+	return u.Script
+}
+
 func (u *vkUpstream) Address() string { return "verif-mock-upstream" }
 func (u *vkUpstream) Close() error    { return nil }
 
